@@ -351,8 +351,10 @@ func Rotate(seq Sequence, n int) Sequence {
 	}
 
 	m := Len(seq) - n
-	p := seq.Bytes()
-	p = append(p[m:], p[:m]...)
+	q := seq.Bytes()
+	p := make([]byte, len(q))
+	copy(p, q[m:])
+	copy(p[n:], q[:m])
 
 	seq = WithFeatures(seq, ff)
 	seq = WithBytes(seq, p)
